@@ -212,6 +212,8 @@ def run_generations(case, ctx):
             if kinds_seen and kinds_seen[-1] != "None":
                 learned_after_mut = True
     ctx.label(f"algo={algo}")
+    if spec.get("maxl"):
+        ctx.label("tight-layer-bound")
     if any(k != "None" for k in kinds_seen) and learned_after_mut:
         ctx.nontrivial({"a": algo, "o": spec.get("obs"), "k": kinds_seen})
 
@@ -234,10 +236,17 @@ def gen_strategy(draw, tier):
         spec["act"] = draw(st.sampled_from(["discrete", "box", "multidiscrete"]))
     elif algo in ag.MULTI_OFF + ag.MULTI_ON:
         spec["act"] = draw(st.sampled_from(["discrete", "box"]))
+    if draw(st.integers(0, 2)) == 0:
+        spec["maxl"] = draw(st.sampled_from([1, 2, 3]))  # tight head-layer bound: add_layer hits its limit / fall-back quickly
     gens = draw(st.lists(st.fixed_dictionaries({
         "learn": st.integers(0, 2), "select": st.booleans(), "probs": st.integers(0, len(PROB_VECTORS) - 1),
         "seed": st.integers(0, 999), "nlp": st.sampled_from([0.0, 0.3, 1.0]), "elite": st.booleans()}),
         min_size=1, max_size=2 if tier == "quick" else 5))
+    if spec.get("maxl"):
+        # make the tight bound matter: at least one pure architecture round that prefers layer mutations
+        gens[0]["probs"], gens[0]["nlp"] = 1, 1.0
+        if len(gens) > 1:
+            gens[1]["probs"], gens[1]["nlp"] = 1, draw(st.sampled_from([0.3, 1.0]))
     return {"spec": spec, "pop": draw(st.integers(1, 3)), "pre_training": draw(st.booleans()), "gens": gens}
 
 
